@@ -508,6 +508,9 @@ def run(ctx):
     ctx.attempt(r58, ctx)
     ctx.rule("R-5.10", "the acquire primitive does not evaluate the P matrix (the idle block may be empty right after the last acquire)", floor=1)
     ctx.attempt(r510, ctx)
+    ctx.rule("R-5.12", "a job can be drawn from P: the fast kernel clamps its probability budget between every subtraction and the next use, so P has no negative entries (shared with C02 R-2.12)", floor=1)
+    from . import c02 as _c02c
+    ctx.attempt(_c02c.r212, ctx, "R-5.12", " - rgen.choice rejects the distribution (probabilities are not non-negative) and no job can be drawn although ensembles are idle")
     ctx.rule("R-5.11", "after the re-sort the next job is drawn from a P matrix of the re-sorted rows: every function that permutes the slot list invalidates the memoised matrix before it is read again (shared with C02 R-2.1)", floor=20)
     from . import c02 as _c02b
     from .shared import RuleProxy as _RP5
@@ -518,6 +521,7 @@ def run(ctx):
 
 
 VARIANTS = [
+    B("c05-budget-clamped-before-subtraction", REPEX, "            total_traj_prob -= ens\n            # force negative values to 0\n            total_traj_prob[np.where(total_traj_prob < 0)] = 0\n", "            # force negative values to 0\n            total_traj_prob[np.where(total_traj_prob < 0)] = 0\n            total_traj_prob -= ens\n", "R-5.12", control=True, why="seeded C05_k"),
     B("c05-resort-keeps-stale-matrix", REPEX, "            ]\n        self._last_prob = None\n        self.prob\n\n    def lock(self, ens):", "            ]\n        self.prob\n\n    def lock(self, ens):", "R-5.11", control=True, why="seeded C05_j"),
     B("c05-lock-refreshes-probabilities", REPEX, "        assert self._locks[ens] == 0\n        self._locks[ens] = 1\n", "        assert self._locks[ens] == 0\n        self._locks[ens] = 1\n        self._last_prob = None\n        self.prob\n", "R-5.10", control=True, why="seeded C05_i"),
     B("c05-montecarlo-divisor-off-by-one", REPEX, "        return out / (n + 1)\n", "        return out / n\n", "R-5.9", control=True, why="seeded C05_h"),
